@@ -185,7 +185,7 @@ func vfDrawRule(t *rapid.T, subjects []string, label string, allowSide bool, cl 
 			if cl != nil && rapid.Bool().Draw(t, label+"_clientname") {
 				m = "client='" + cl.Name + "'"
 			} else {
-				m = "client=" + rapid.SampledFrom([]string{"192.0.2.10", "192.0.2.0/28", "~192.0.2.10", "2001:db8::1", "10.0.0.0/8"}).Draw(t, label+"_clientaddr")
+				m = "client=" + rapid.SampledFrom([]string{"192.0.2.10", "192.0.2.0/28", "~192.0.2.10", "2001:db8::1", "10.0.0.0/8", "fe80::1", "fe80::/10"}).Draw(t, label+"_clientaddr")
 			}
 			mods = append(mods, m)
 			r.Modifier = m
@@ -490,7 +490,8 @@ func (m *vfC01Model) reference(q *vfC01Query) (v vfVerdict) {
 	}
 
 	if rulesApply {
-		req := &urlfilter.DNSRequest{Hostname: name, DNSType: q.Qtype, ClientIP: q.Addr.Addr()}
+		// the host the request came from, whatever the form of its address
+		req := &urlfilter.DNSRequest{Hostname: name, DNSType: q.Qtype, ClientIP: q.Addr.Addr().Unmap().WithZone("")}
 		if cl != nil {
 			req.ClientName = cl.Name
 		}
@@ -698,7 +699,10 @@ func vfDrawC01Query(t *rapid.T, c *vfC01Conf, label string) (q *vfC01Query) {
 		}
 	} else if rapid.IntRange(0, 3).Draw(t, label+"_otheraddr") == 0 {
 		// an address near, but outside, the client's identifiers
-		q.Addr = netip.MustParseAddrPort(rapid.SampledFrom([]string{"192.0.2.16:1", "192.0.2.200:1", "[2001:db8::1]:1", "10.2.3.4:1"}).Draw(t, label+"_addr"))
+		q.Addr = netip.MustParseAddrPort(rapid.SampledFrom([]string{"192.0.2.16:1", "192.0.2.200:1", "[2001:db8::1]:1", "10.2.3.4:1",
+			// a link-local client (its address always comes with the zone) and
+			// an IPv4 host behind a dual-stack reverse proxy
+			"[fe80::1%eth0]:1", "[::ffff:10.2.3.4]:1"}).Draw(t, label+"_addr"))
 		if c.Client != nil && c.Client.IDKind != "clientid" && c.Client.Subnet.Contains(q.Addr.Addr()) {
 			q.Addr = netip.MustParseAddrPort("198.18.0.78:1")
 		}
